@@ -227,6 +227,66 @@ func decodedLength(rd *ssa.Function) ssa.Value {
 			}
 		}
 	})
+	if out != nil {
+		return out
+	}
+	// the header is decoded into a struct by a helper (`h := unmarshalFrameHeader(buf)`): the decoded
+	// length is the field of that struct the helper fills from the Uint32
+	Instrs(rd, func(in ssa.Instruction) {
+		ci, ok := in.(*ssa.Call)
+		if !ok || out != nil {
+			return
+		}
+		g := ci.Common().StaticCallee()
+		if g == nil || g.Pkg != rd.Pkg || len(g.Blocks) == 0 {
+			return
+		}
+		fieldIdx := -1
+		Instrs(g, func(x ssa.Instruction) {
+			st, ok := x.(*ssa.Store)
+			if !ok {
+				return
+			}
+			fa, ok := st.Addr.(*ssa.FieldAddr)
+			if !ok {
+				return
+			}
+			if c2, _ := CallOfValue(st.Val); c2 != nil && CalleeOf(c2).Name == "Uint32" {
+				fieldIdx = fa.Field
+			}
+		})
+		if fieldIdx < 0 {
+			return
+		}
+		var res ssa.Value = ci
+		if g.Signature.Results().Len() > 1 {
+			res = extractOf(ci, 0)
+		}
+		if res == nil || res.Referrers() == nil {
+			return
+		}
+		for _, ref := range *res.Referrers() {
+			switch x := ref.(type) {
+			case *ssa.Field:
+				if x.Field == fieldIdx && out == nil {
+					out = x
+				}
+			case *ssa.Store:
+				// spilled: h := f(); ... h.Length
+				if al, ok := x.Addr.(*ssa.Alloc); ok && al.Referrers() != nil {
+					for _, r2 := range *al.Referrers() {
+						if fa, ok := r2.(*ssa.FieldAddr); ok && fa.Field == fieldIdx && fa.Referrers() != nil {
+							for _, r3 := range *fa.Referrers() {
+								if u, ok := r3.(*ssa.UnOp); ok && out == nil {
+									out = u
+								}
+							}
+						}
+					}
+				}
+			}
+		}
+	})
 	return out
 }
 
